@@ -422,7 +422,10 @@ Dropped(n) == {k \in 1..Len(node[n].log) : ~HoldsLog(node'[n].log, node[n].log[k
                    /\ ~\E j \in node[n].log[1].idx..node[n].log[k].idx :
                            TermAtIdx(node[n].log, j) # -1 /\ TermAtIdx(node'[n].log, j) # -1
                            /\ TermAtIdx(node[n].log, j) # TermAtIdx(node'[n].log, j)}
-DropBad == {n \in Nodes : BothLive(n) /\ node[n].log # <<>> /\ node'[n].log # <<>> /\ Dropped(n) # {}}
+(* (evaluated only on steps that do more to a log than append to it) *)
+DropBad == {n \in Nodes : /\ BothLive(n) /\ node[n].log # <<>> /\ node'[n].log # <<>> /\ node'[n].log # node[n].log
+                          /\ ~(Len(node'[n].log) >= Len(node[n].log) /\ SubSeq(node'[n].log, 1, Len(node[n].log)) = node[n].log)
+                          /\ Dropped(n) # {}}
 EntriesKeptUnlessConflict == DropBad = {}
 MonoBad == {n \in Nodes : BothLive(n) /\ ~(node'[n].commit >= node[n].commit /\ node'[n].applied >= node[n].applied)}
 HistBad == {n \in Nodes : BothLive(n) /\ ~(Len(node[n].hist) <= Len(node'[n].hist) /\ SubSeq(node'[n].hist, 1, Len(node[n].hist)) = node[n].hist)}
